@@ -3,15 +3,21 @@
 //
 //	di drive              ops on stdin -> one result line per op on stdout (same format as m_di)
 //	di gen <n>            n random programs (each starts with `new`)
+//	di genx <n>           n random programs of the extended operation set (ext.go)
 //	di enum3 <k> <m>      shard k of m of the exhaustive 3-name graphs
+//	di enumx <k> <m>      shard k of m of the exhaustive small space of the extended operation set
 //	di oracle <n>         property clauses evaluated on the implementation alone (no model)
 //	di judge              the same clauses on the programs given on stdin (verdict for a disagreement)
 //
 // A factory is data (ordered dependency list with required/optional and Get/InjectTo edges, outcome
-// ok/fail/nil) interpreted by a closure; InjectTo targets are struct types built with
-// reflect.StructOf so that the `dependency:"…"` tags are data too.  Object identity is reported as
+// ok/fail/nil) interpreted by a closure (every InjectTo edge uses its own one-field struct); InjectTo
+// targets are struct types built with reflect.StructOf so that the `dependency:"…"` tags (and the tags
+// `t1:"…"`, `t2:"…"` read by extra injectors) are data too; injectors are the real map / data-scope /
+// multi / nil injectors built from a spec; `static` replaces the provider by NewStaticProvider over
+// copies of its own tables.  Names are text (`~` stands for the empty name).  Object identity is reported as
 // classes numbered by first appearance in the output, never as pointers; error kinds are derived
-// from what the provider did (which factory it invoked at the top level and what that returned),
+// from what the provider did (which factory it invoked at the top level and what that returned, which
+// registered injector returned an error, whether a nil definition had been accepted for the name),
 // never from message text.
 package main
 
@@ -41,6 +47,7 @@ type depSpec struct {
 	name     string
 	optional bool
 	inject   bool
+	extra    []tagKV // further struct tags of an InjectTo field: tag number -> raw text
 }
 
 type facSpec struct {
@@ -62,6 +69,10 @@ type prog struct {
 	calls   map[string]int // factory invocations so far
 	built   map[string]int // successful factory returns so far
 	top     []topCall      // returns of factories invoked directly by the current top-level request
+	nilSet  map[string]bool // names for which a nil Set / SetDefault was accepted
+	ninj    int             // injectors registered so far
+	injErr  int             // index of the first registered injector that failed for the current request (-1: none)
+	static  bool
 }
 
 func newProg() *prog {
@@ -70,6 +81,8 @@ func newProg() *prog {
 		classes: map[*Obj]int{},
 		calls:   map[string]int{},
 		built:   map[string]int{},
+		nilSet:  map[string]bool{},
+		injErr:  -1,
 	}
 }
 
@@ -101,9 +114,9 @@ func structFor(fields []depSpec) reflect.Value { return structForT(fields, false
 func structForT(fields []depSpec, forOracle bool) reflect.Value {
 	sf := []reflect.StructField{{Name: "X", Type: reflect.TypeOf(0)}}
 	for i, f := range fields {
-		tag := f.name
-		if f.optional {
-			tag = "?" + tag
+		tag := app.DependencyTagName + `:"` + f.rawTag() + `"`
+		for _, kv := range f.extra {
+			tag += " " + tagName(kv.tag) + `:"` + kv.raw + `"`
 		}
 		t := objPtrType
 		if forOracle {
@@ -115,7 +128,7 @@ func structForT(fields []depSpec, forOracle bool) reflect.Value {
 		sf = append(sf, reflect.StructField{
 			Name: "F" + strconv.Itoa(i),
 			Type: t,
-			Tag:  reflect.StructTag(app.DependencyTagName + `:"` + tag + `"`),
+			Tag:  reflect.StructTag(tag),
 		})
 	}
 	return reflect.New(reflect.StructOf(sf))
@@ -149,23 +162,17 @@ func (p *prog) factory(name string, spec facSpec) app.Factory {
 				p.top = append(p.top, topCall{name, out})
 			}
 		}()
-		for i := 0; i < len(spec.deps); {
-			d := spec.deps[i]
+		for i, d := range spec.deps {
 			if !d.inject {
 				if _, e := dp.Get(d.name); e != nil && !d.optional {
 					return nil, e
 				}
-				i++
 				continue
 			}
-			j := i
-			for j < len(spec.deps) && spec.deps[j].inject {
-				j++
-			}
-			if e := dp.InjectTo(structFor(spec.deps[i:j]).Interface()); e != nil {
+			// one struct per InjectTo edge (the registered injectors run at the end of every InjectTo)
+			if e := dp.InjectTo(structFor(spec.deps[i : i+1]).Interface()); e != nil {
 				return nil, e
 			}
-			i = j
 		}
 		switch spec.out {
 		case "fail":
@@ -185,13 +192,13 @@ func parseDeps(s string, withVia bool) ([]depSpec, bool) {
 	var res []depSpec
 	for _, it := range strings.Split(s, ",") {
 		parts := strings.Split(it, ":")
-		if (withVia && len(parts) != 3) || (!withVia && len(parts) != 2) {
+		if (withVia && len(parts) != 3) || (!withVia && len(parts) < 2) {
 			return nil, false
 		}
-		if _, err := strconv.ParseUint(parts[0], 10, 32); err != nil {
+		if !validTok(parts[0]) {
 			return nil, false
 		}
-		d := depSpec{name: parts[0]}
+		d := depSpec{name: tokName(parts[0])}
 		switch parts[1] {
 		case "o":
 			d.optional = true
@@ -206,6 +213,18 @@ func parseDeps(s string, withVia bool) ([]depSpec, bool) {
 			case "g":
 			default:
 				return nil, false
+			}
+		} else {
+			for _, x := range parts[2:] {
+				kv := strings.Split(x, "=")
+				if len(kv) != 2 || kv[1] == "" {
+					return nil, false
+				}
+				t, err := strconv.Atoi(kv[0])
+				if err != nil {
+					return nil, false
+				}
+				d.extra = append(d.extra, tagKV{t, tokName(kv[1])})
 			}
 		}
 		res = append(res, d)
@@ -237,73 +256,143 @@ func (p *prog) kindFor(name string) string {
 	return "missing"
 }
 
+// kind of the error an InjectTo from outside ended with (see the header: derived from what happened)
+func (p *prog) injectKind(fields []depSpec, filled []bool) string {
+	if p.injErr >= 0 {
+		return "inj" + strconv.Itoa(p.injErr)
+	}
+	for i, f := range fields {
+		name, optional, skip := parseTag(f.rawTag())
+		if skip || filled[i] {
+			continue
+		}
+		ran := false
+		for j := len(p.top) - 1; j >= 0; j-- {
+			if p.top[j].name == name {
+				ran = true
+				if !optional {
+					return p.top[j].out
+				}
+				break
+			}
+		}
+		if ran {
+			continue
+		}
+		if p.nilSet[name] {
+			return "nildep"
+		}
+		if !optional {
+			return "missing"
+		}
+	}
+	return "unknown"
+}
+
 func (p *prog) op(line string) string {
 	f := strings.Split(line, " ")
 	switch {
-	case f[0] == "set" && len(f) == 2:
-		return accepted(p.dp.Set(f[1], p.newObj()))
-	case f[0] == "setdefault" && len(f) == 2:
-		return accepted(p.dp.SetDefault(f[1], p.newObj()))
-	case (f[0] == "factory" || f[0] == "deffactory") && len(f) == 4:
+	case (f[0] == "set" || f[0] == "setdefault") && (len(f) == 2 || (len(f) == 3 && f[2] == "nil")) && validTok(f[1]):
+		name := tokName(f[1])
+		var v interface{}
+		if len(f) == 2 {
+			v = p.newObj()
+		}
+		var err error
+		if f[0] == "set" {
+			err = p.dp.Set(name, v)
+		} else {
+			err = p.dp.SetDefault(name, v)
+		}
+		if err == nil && v == nil {
+			p.nilSet[name] = true
+		}
+		return accepted(err)
+	case (f[0] == "factory" || f[0] == "deffactory") && len(f) == 4 && validTok(f[1]):
 		deps, ok := parseDeps(f[2], true)
 		if !ok || (f[3] != "ok" && f[3] != "fail" && f[3] != "nil") {
 			return "bad-op"
 		}
-		fac := p.factory(f[1], facSpec{deps, f[3]})
+		name := tokName(f[1])
+		fac := p.factory(name, facSpec{deps, f[3]})
 		if f[0] == "factory" {
-			return accepted(p.dp.AddFactory(f[1], fac))
+			return accepted(p.dp.AddFactory(name, fac))
 		}
-		return accepted(p.dp.AddDefaultFactory(f[1], fac))
-	case f[0] == "get" && len(f) == 2:
-		p.ran, p.top, p.depth = nil, nil, 0
-		v, err := p.dp.Get(f[1])
+		return accepted(p.dp.AddDefaultFactory(name, fac))
+	case f[0] == "addinjectors" && len(f) == 2:
+		specs, ok := parseInjSpec(f[1])
+		if !ok {
+			return "bad-op"
+		}
+		var injs []app.Injector
+		for i, sp := range specs {
+			b := buildInj(sp, func() interface{} { return p.newObj() })
+			injs = append(injs, recInjector{inner: b.real, idx: p.ninj + i, depth: &p.depth, first: &p.injErr})
+		}
+		err := p.dp.AddInjectors(injs)
+		if err == nil {
+			p.ninj += len(injs)
+		}
+		return accepted(err)
+	case f[0] == "get" && len(f) == 2 && validTok(f[1]):
+		name := tokName(f[1])
+		p.ran, p.top, p.depth, p.injErr = nil, nil, 0, -1
+		v, err := p.dp.Get(name)
 		if err != nil {
-			return fmt.Sprintf("err %s ran=%s", p.kindFor(f[1]), join(p.ran))
+			return fmt.Sprintf("err %s ran=%s", p.kindFor(name), join(nameToks(p.ran)))
 		}
 		if v == nil {
-			return fmt.Sprintf("inst nil ran=%s", join(p.ran))
+			return fmt.Sprintf("inst nil ran=%s", join(nameToks(p.ran)))
 		}
-		return fmt.Sprintf("inst %s ran=%s", p.classOf(v), join(p.ran))
+		return fmt.Sprintf("inst %s ran=%s", p.classOf(v), join(nameToks(p.ran)))
 	case f[0] == "inject" && len(f) == 2:
 		fields, ok := parseDeps(f[1], false)
 		if !ok {
 			return "bad-op"
 		}
-		p.ran, p.top, p.depth = nil, nil, 0
+		p.ran, p.top, p.depth, p.injErr = nil, nil, 0, -1
 		ptr := structFor(fields)
 		err := p.dp.InjectTo(ptr.Interface())
 		vals := make([]string, len(fields))
-		failing := ""
+		filled := make([]bool, len(fields))
 		for i := range fields {
 			if v := fieldValue(ptr, i); v != nil {
 				vals[i] = p.classOf(v)
+				filled[i] = true
 			} else {
 				vals[i] = "-"
-				if failing == "" && !fields[i].optional {
-					failing = fields[i].name
-				}
 			}
 		}
 		if err != nil {
-			return fmt.Sprintf("err %s vals=%s ran=%s", p.kindFor(failing), join(vals), join(p.ran))
+			return fmt.Sprintf("err %s vals=%s ran=%s", p.injectKind(fields, filled), join(vals), join(nameToks(p.ran)))
 		}
-		return fmt.Sprintf("ok vals=%s ran=%s", join(vals), join(p.ran))
+		return fmt.Sprintf("ok vals=%s ran=%s", join(vals), join(nameToks(p.ran)))
+	case f[0] == "injectbad" && len(f) == 2:
+		err := injectBad(p.dp, f[1])
+		return fmt.Sprintf("no-panic err=%v", err != nil)
+	case f[0] == "static" && len(f) == 1:
+		p.dp = staticFrom(p.dp)
+		p.static = true
+		return "ok"
 	case f[0] == "keys" && len(f) == 1:
 		keys, err := p.dp.Keys()
 		if err != nil {
 			return "err"
 		}
-		return "keys " + join(keys)
-	case f[0] == "calls" && len(f) == 1:
-		var names []int
-		for n := range p.calls {
-			k, _ := strconv.Atoi(n)
-			names = append(names, k)
+		keys = append([]string{}, keys...)
+		if p.static {
+			sort.Strings(keys) // NewStaticProvider fills keys from a range over a map
 		}
-		sort.Ints(names)
+		return "keys " + join(nameToks(keys))
+	case f[0] == "calls" && len(f) == 1:
+		var names []string
+		for n := range p.calls {
+			names = append(names, n)
+		}
+		sort.Strings(names)
 		items := make([]string, len(names))
 		for i, n := range names {
-			items[i] = fmt.Sprintf("%d=%d", n, p.calls[strconv.Itoa(n)])
+			items[i] = fmt.Sprintf("%s=%d", nameTok(n), p.calls[n])
 		}
 		return "calls " + join(items)
 	}
@@ -504,7 +593,7 @@ func enum3(shard, shards int) {
 
 func main() {
 	if len(os.Args) < 2 {
-		fmt.Fprintln(os.Stderr, "usage: di drive | gen <n> | enum3 <k> <m> | oracle <n> | judge")
+		fmt.Fprintln(os.Stderr, "usage: di drive | gen <n> | genx <n> | enum3 <k> <m> | enumx <k> <m> | oracle <n> | judge")
 		os.Exit(2)
 	}
 	arg := func(i int) int {
@@ -525,6 +614,10 @@ func main() {
 		gen(arg(2))
 	case "enum3":
 		enum3(arg(2), arg(3))
+	case "genx":
+		genx(arg(2))
+	case "enumx":
+		enumx(arg(2), arg(3))
 	case "oracle":
 		oracle(arg(2))
 	case "judge":
